@@ -42,9 +42,16 @@ def sinks_strategy(prog, classes=VALID, max_sinks=3, allow_repeat=True):
                 s["before"] = [draw(st.integers(0, 2)) for _ in range(v.ndim)]
                 s["after"] = [draw(st.integers(0, 2)) for _ in range(v.ndim)]
                 s["explicit_full"] = draw(st.booleans())
+                s["open_ends"] = draw(st.booleans())  # write slice(None, stop) / slice(start, None) where that is equivalent
+                s["tmul"] = [draw(st.sampled_from([1, 1, 1, 2, 3, "all"])) for _ in range(v.ndim)]  # target chunk = multiple of the source chunk
                 if cls == "region-misaligned":
                     s["shift"] = draw(st.integers(1, 3))
                     s["axis"] = draw(st.integers(0, v.ndim - 1))
+                    s["how"] = draw(st.sampled_from(["shift", "stop-only"]))
+                    if s["how"] == "stop-only":
+                        # slice(None, k) with k neither a multiple of the chunk nor the end of the axis
+                        s["before"][s["axis"]] = 0
+                        s["open_ends"] = True
             if cls == "existing-diff":
                 s["tchunks"] = [draw(st.sampled_from([1, 2, 3, 4, 5, 7, max(1, n_)])) for n_ in v.shape]
             if cls == "sharded":
@@ -160,29 +167,50 @@ def build_sinks(sinks, arrs, ctx: SinkCtx, spec, vals=None, compute=False, execu
                 kw["shards"] = shards
                 tchunks = inner
             if cls.startswith("region"):
-                starts, stops, tsh = [], [], []
+                starts, stops, tsh, tch = [], [], [], []
+                tmul = s.get("tmul") or [1] * len(shape)
                 for ax, (n, c) in enumerate(zip(shape, cs)):
                     b = s["before"][ax]
                     a = s["after"][ax]
-                    start = b * c
+                    m = tmul[ax]
+                    if m == "all":
+                        # one target chunk spans the whole target axis: the region may sit anywhere inside it only if it
+                        # starts at 0 (chunk-aligned start) and ends at the end of the axis
+                        tc, b, a = None, 0, 0
+                    else:
+                        tc = c * int(m)
+                    start = b * (tc or 1)
                     stop = start + n
-                    if n % c != 0:
+                    if tc is not None and n % tc != 0:
                         a = 0
                     starts.append(start)
                     stops.append(stop)
-                    tsh.append(stop + a * c)
+                    tsh.append(stop + a * (tc or 1))
+                    tch.append(tc if tc is not None else max(stop, 1))
                 if s.get("full_slices"):
                     tsh = list(shape)
+                    tch = list(cs)
                     region = [[0, n] for n in shape]
                 else:
                     region = [[a_, b_] for a_, b_ in zip(starts, stops)]
                 tshape = tuple(tsh)
+                tchunks = tuple(tch)
                 if cls == "region-misaligned":
                     ax = s["axis"]
-                    tshape = tuple(t + (s["shift"] if i == ax else 0) for i, t in enumerate(tshape))
-                    region[ax] = [region[ax][0] + s["shift"], region[ax][1] + s["shift"]]
-                    if region[ax][0] % cs[ax] == 0 and (region[ax][1] % cs[ax] == 0 or region[ax][1] == tshape[ax]):
-                        cls = "region-aligned-after-shift"
+                    if s.get("how") == "stop-only":
+                        # start stays aligned (and may be written as None when it is 0); only the stop is mis-aligned:
+                        # the source is one element longer than a whole number of chunks and the target goes on after it
+                        tshape = tuple(t + (tchunks[ax] + 1 if i == ax else 0) for i, t in enumerate(tshape))
+                        stop = region[ax][1]
+                        if stop % tchunks[ax] == 0 or stop == tshape[ax]:
+                            cls = "region-aligned-after-shift"
+                    else:
+                        tshape = tuple(t + (s["shift"] if i == ax else 0) for i, t in enumerate(tshape))
+                        region[ax] = [region[ax][0] + s["shift"], region[ax][1] + s["shift"]]
+                        if region[ax][0] % tchunks[ax] == 0 and (region[ax][1] % tchunks[ax] == 0 or region[ax][1] == tshape[ax]):
+                            cls = "region-aligned-after-shift"
+                if tuple(tchunks) != tuple(cs) and cls in ("region-aligned", "region-aligned-after-shift"):
+                    cls = cls + "+chunks-differ"
             path = f"t{k}"
             z = zarr.create_array(ts, name=path, shape=tshape, dtype=src.dtype, chunks=tuple(max(1, c) for c in tchunks) if tshape else (), **kw)
             before = _sentinel(tshape, src.dtype)
@@ -209,7 +237,10 @@ def build_sinks(sinks, arrs, ctx: SinkCtx, spec, vals=None, compute=False, execu
             if s.get("full_slices"):
                 reg = tuple(slice(None) for _ in shape)
             else:
-                reg = tuple(slice(a_, b_) for a_, b_ in region)
+                if s.get("open_ends"):
+                    reg = tuple(slice(None if a_ == 0 else a_, None if b_ == t_ else b_) for (a_, b_), t_ in zip(region, tshape))
+                else:
+                    reg = tuple(slice(a_, b_) for a_, b_ in region)
         if s["api"] == "to_zarr":
             if tgt.zarr_array is not None:
                 out = cubed.to_zarr(src, tgt.zarr_array, region=reg, compute=False)
